@@ -337,7 +337,16 @@ func sLen(sort, s string) string {
 	}
 	return app(seqFn(sort, "len"), s)
 }
-func sIdx(sort, s, i string) string      { return app(seqFn(sort, "idx"), s, i) }
+func sIdx(sort, s, i string) string {
+	if d, ok := termDefs[s]; ok && strings.HasPrefix(d, "("+seqFn(sort, "sl")+" ") {
+		s = d
+	}
+	// idx(sl(x,a,b),i) = idx(x,a+i)
+	if args, ok := splitCtor(s, seqFn(sort, "sl")); ok && len(args) == 3 {
+		return sIdx(sort, args[0], tAdd(args[1], i))
+	}
+	return app(seqFn(sort, "idx"), s, i)
+}
 // termDefs: definitions of named terms (name -> term), so that syntactic
 // simplifications can look through names.
 var termDefs = map[string]string{}
@@ -455,6 +464,7 @@ func codecPrelude(quant bool) string {
 	p("(assert (forall ((s %s) (i Int) (v Int)) (! (=> (and (g_isbytes s) (<= 0 v) (<= v 255)) (g_isbytes (%s_upd s i v))) :pattern ((%s_upd s i v)))))", S, S, S)
 	p("(assert (forall ((n Int) (v Int)) (! (=> (and (<= 0 v) (<= v 255)) (g_isbytes (%s_rep n v))) :pattern ((%s_rep n v)))))", S, S)
 	p("(assert (forall ((v Int)) (! (= (g_enc8 v) (%s_build %s_empty v)) :pattern ((g_enc8 v)))))", S, S)
+	p("(assert (forall ((s %s) (i Int)) (! (=> (and (<= 0 i) (< i (%s_len s))) (= (g_enc8 (%s_idx s i)) (%s_sl s i (+ i 1)))) :pattern ((g_enc8 (%s_idx s i))))))", S, S, S, S, S)
 	for _, o := range []string{"le", "be"} {
 		for _, w := range []int{16, 32, 64} {
 			n := w / 8
